@@ -197,6 +197,7 @@ class CVRPOracle:
     def step(self, st, a, active, t):
         cust = s_ne(a, 0)
         st.flag(s_and(active, cust), "visit_once", pick(a, st["visited"]))
+        st.flag(s_and(active, s_not(cust)), "canonical:no_idle_depot", s_and(s_eq(st["cur"], 0), s_not(all_(st["visited"][1:]))))
         newload = s_where(cust, s_add(st["load"], pick(a, self.dem)), 0.0)
         st.flag(active, "capacity", s_gt(newload, s_add(1.0, margin())))
         st.upd(active, visited=[s_or(v, s_and(cust, s_eq(a, k))) for k, v in enumerate(st["visited"])],
@@ -242,10 +243,11 @@ class SDVRPOracle(CVRPOracle):
     def step(self, st, a, active, t):
         cust = s_ne(a, 0)
         want = pick(a, st["rem"])
-        st.flag(s_and(active, s_and(s_not(cust), s_eq(st["cur"], 0))), "canonical:no_idle_depot", s_and(t > 0, any_([s_gt(r, 0) for r in st["rem"][1:]])))
+        st.flag(s_and(active, s_and(s_not(cust), s_eq(st["cur"], 0))), "canonical:no_idle_depot", any_([s_gt(r, 0) for r in st["rem"][1:]]))
         delivered = s_where(cust, s_min(want, s_sub(1.0, st["load"])), 0.0)
         newload = s_where(cust, s_add(st["load"], delivered), 0.0)
         st.flag(active, "capacity", s_gt(newload, s_add(1.0, margin())))
+        st.flag(s_and(active, cust), "canonical:no_zero_delivery", s_le(delivered, 0.0))
         st.upd(active, rem=[s_where(s_and(cust, s_eq(a, k)), s_sub(r, delivered), r) for k, r in enumerate(st["rem"])],
                length=s_add(st["length"], pick2(st["cur"], a, self.D)), cur=a, load=newload)
 
@@ -275,11 +277,14 @@ class OPOracle:
         self.prize = [0.0] + list(row["prize"])
 
     def start(self):
-        return OState(visited=[False] * (self.n + 1), cur=0, length=0.0, prize=0.0, returned=False, moved=False)
+        return OState(visited=[False] * (self.n + 1), cur=0, length=0.0, prize=0.0, returned=False, lead0=False)
 
     def step(self, st, a, active, t):
         cust = s_ne(a, 0)
         st.flag(s_and(active, cust), "visit_at_most_once", pick(a, st["visited"]))
+        st.flag(s_and(active, cust), "canonical:leading_depot_means_empty_tour", st["lead0"])
+        if t == 0:
+            st.upd(active, lead0=s_not(cust))
         newlen = s_add(st["length"], pick2(st["cur"], a, self.D))
         ret = s_and(s_not(cust), t > 0)  # a leading depot action is the (explicit) start, not a return
         chk = ret if self.lenient_last is None else s_and(ret, t == self.lenient_last)
@@ -344,6 +349,8 @@ class PCTSPOracle:
         cust = s_ne(a, 0)
         st.flag(s_and(active, cust), "visit_at_most_once", pick(a, st["visited"]))
         ret = s_and(s_not(cust), t > 0)
+        if t == 0:
+            st.flag(active, "canonical:no_leading_depot", s_not(cust))
         allv = all_(st["visited"][1:])
         chk = ret if self.lenient_last is None else s_and(ret, t == self.lenient_last)
         st.flag(s_and(active, chk), "min_prize", s_and(s_lt(st["prize"], s_sub(1.0, margin())), s_not(allv)))
@@ -544,6 +551,8 @@ class SVRPOracle:
         st.flag(s_and(active, cust), "technicians", s_ge(st["tech"], K))
         tsk = pick(s_min(st["tech"], K - 1), self.techs)
         st.flag(s_and(active, cust), "skill", s_lt(tsk, s_sub(pick(a, self.skill), margin())))
+        can_serve = any_([s_and(s_not(st["visited"][j]), s_le(self.skill[j], tsk)) for j in range(1, self.n + 1)])
+        st.flag(s_and(active, s_not(cust)), "canonical:no_idle_depot", s_and(s_eq(st["cur"], 0), can_serve))
         leg = pick2(st["cur"], a, self.D)
         wleg = pick(s_min(st["tech"], K - 1), [s_mul(c, leg) for c in self.costs])  # keeps the term linear
         st.upd(active, visited=[s_or(v, s_and(cust, s_eq(a, k))) for k, v in enumerate(st["visited"])], cur=a,
@@ -610,6 +619,8 @@ class CVRPTWOracle(CVRPOracle):
         newt = s_where(cust, s_add(s_max(arr, pick(a, self.row["early"])), pick(a, self.row["service"])), 0.0)
         CVRPOracle.step(self, st, a, active, t)
         st.upd(active, time=newt)
+        last = s_and(s_and(active, cust), all_(st["visited"][1:]))
+        st.flag(last, "return_in_time", s_gt(s_add(st["time"], pick(a, [r_[0] for r_ in self.D])), s_add(self.row["late"][0], margin())))
 
 
 class CVRPTWSpec(CVRPSpec):
@@ -667,6 +678,7 @@ class MTVRPOracle:
         cust = s_ne(a, 0)
         leg = pick2(st["cur"], a, self.D)
         st.flag(s_and(active, cust), "visit_once", pick(a, st["visited"]))
+        st.flag(s_and(active, s_not(cust)), "canonical:no_idle_depot", s_and(s_eq(st["cur"], 0), s_not(all_(st["visited"][1:]))))
         isb = pick(a, r["isback"])
         st.flag(s_and(active, cust), "linehaul_before_backhaul", s_and(s_not(isb), st["hadb"]))
         ll = s_where(cust, s_add(st["ll"], pick(a, r["dl"])), 0.0)
@@ -689,6 +701,14 @@ class MTVRPOracle:
         st.upd(active, visited=[s_or(v, s_and(cust, s_eq(a, k))) for k, v in enumerate(st["visited"])], cur=a,
                cost=s_add(st["cost"], charged), ll=ll, lb=lb, time=newt, rlen=s_where(cust, s_add(st["rlen"], leg), 0.0),
                hadb=s_where(cust, s_or(st["hadb"], isb), False))
+        if not self.O and (self.L or self.TW):
+            # the customer that completes the solution is followed by the (implied) final return of a closed route
+            last = s_and(s_and(active, cust), all_(st["visited"][1:]))
+            back = pick(a, [r_[0] for r_ in self.D])
+            if self.L:
+                st.flag(last, "route_length", s_gt(s_add(st["rlen"], back), s_add(r["limit"], margin())))
+            if self.TW:
+                st.flag(last, "return_in_time", s_gt(s_add(st["time"], back), s_add(r["late"][0], margin())))
 
     def complete(self, st):
         return all_(st["visited"][1:])
